@@ -441,10 +441,12 @@ class cleanup_functools_wrapper(object):
         self.saved_attrs = {}
         for attr in self.attrs:
             try:
-                self.saved_attrs[attr] = getattr(self.func, attr)
+                value = getattr(self.func, attr)
                 delattr(self.func, attr)
             except AttributeError:
                 pass
+            else:
+                self.saved_attrs[attr] = value
 
     def __exit__(self, *exc):
         for attr, val in self.saved_attrs.items():
